@@ -43,6 +43,8 @@ KNOWN_KEY = "optnu:inf-branch-despite-root"
 CFG = "INIT Init\nNEXT Next\nCONSTANT ImplBranch = {impl}\nINVARIANT TypeOK\nCHECK_DEADLOCK FALSE\n"
 MAP_KINDS = ["SPT", "S", "NPT", "P", "ST", "E", "T", "SP", "N", "EPT", "PT", "NT"]
 REDRAWS = 2
+LARGE = 100000
+LARGE_KINDS = ["T", "ST", "NT", "SPT", "PT", "EPT"]  # every large-n pair contains a translation (offset >> width is the regime of interest)
 
 
 # ------------------------------------------------------------------------------------------------------------------
@@ -57,6 +59,13 @@ def fixed_t3():
 def case_data(seed, k):
     if k < 0:
         return "fixed-t3", 2, 400, fixed_t3()
+    if k >= LARGE:  # long particle histories: more than 10^4 points in one fit (sizes around every plausible switch-over of the code path)
+        j = k - LARGE
+        rng = np.random.default_rng([seed, 1900, j])
+        cls = ["gauss", "t3", "cube", "t5", "lognormal", "corr"][j % 6]
+        d = 1 + j % 3
+        n = [10001, 16384, 12000, 40000, 10240, 100001][j % 6] if j % 6 != 5 or d == 1 else 20000
+        return cls + "+large", d, n, so.make_data(rng, cls, d, n)
     rng = np.random.default_rng([seed, 19, k])
     cls, d, n = so.draw_case(rng, k)
     return cls, d, n, so.make_data(rng, cls, d, n)
@@ -64,7 +73,7 @@ def case_data(seed, k):
 
 def case_map(seed, k, slot, attempt, d, X, nslots, numax=1.0):
     rng = np.random.default_rng([seed, 1919, k + 1, slot, attempt])
-    kind = MAP_KINDS[(k + 5 * slot + 3 * attempt) % len(MAP_KINDS)]
+    kind = MAP_KINDS[(k + 5 * slot + 3 * attempt) % len(MAP_KINDS)] if k < LARGE else LARGE_KINDS[(k + slot + attempt) % len(LARGE_KINDS)]
     perm = None
     if "P" in kind:
         if d == 1:
@@ -283,7 +292,7 @@ def main():
         sys.exit(1 if fails else 0)
 
     n_data, nslots = (60, 4) if ck.tier == "quick" else (1000, 8)
-    ks = [-1] + list(range(n_data))
+    ks = [-1] + list(range(n_data)) + [LARGE + j for j in range(3 if ck.tier == "quick" else 18)]
     pending = {k: [(s, 0) for s in range(nslots)] for k in ks}
     first = True
     states = generated = 0
@@ -307,8 +316,8 @@ def main():
         jobs = []
         for k, maps in pending.items():
             jobs.append({"seed": ck.seed, "k": k, "maps": maps, "nslots": nslots, "timeout": 600,
-                         "modes": first and (k >= 0) and (ck.tier == "quick" or k % 4 == 0),
-                         "degen": so.DEGENERATE[k % len(so.DEGENERATE)] if (first and k >= 0 and k % (3 if ck.tier == "quick" else 25) == 0) else None})
+                         "modes": first and (0 <= k < LARGE) and (ck.tier == "quick" or k % 4 == 0),
+                         "degen": so.DEGENERATE[k % len(so.DEGENERATE)] if (first and 0 <= k < LARGE and k % (3 if ck.tier == "quick" else 25) == 0) else None})
         res = procs.run(job, jobs, procs=14, timeout=600.0)
         items, metas = [], []
         for jb, (stt, r) in zip(jobs, res):
